@@ -31,10 +31,23 @@ func propManyKeys(c *Case) {
 		survivors = n
 	}
 
-	stale := c.Weighted("initially-stale", 2, 1) == 1 // stale-old: MaxStaleness exceeded, every Get builds synchronously
-	if stale {
+	// initial state of every key: absent (sync build), stale beyond MaxStaleness (sync build), or
+	// acceptably stale (the Get is served at once, the build runs in background)
+	initial := c.Weighted("initial", 3, 2, 3)
+	stale := initial != 0
+	background := initial == 2
+
+	if initial == 1 {
 		cfg.maxStaleness = time.Second
 	}
+
+	if background {
+		cfg.syncUpdate = false
+		c.Class("background-updates")
+	}
+
+	cancelCallers := background && c.Bool("cancel-callers-after-return")
+	churn := []int{0, 300, 70000}[c.Weighted("churn-while-in-flight", 16, 3, 1)]
 
 	drain := c.Pick("drain-order", 3) // ascending, descending, survivors in the middle
 	nLate := c.Int("late-gets", 1, 3)
@@ -46,8 +59,8 @@ func propManyKeys(c *Case) {
 
 	c.Class("variant=" + variantNames[cfg.variant])
 	c.Class(fmt.Sprintf("keys=%d", n))
-	c.Tracef("config: %s; %d keys (initially stale=%v), %d builds stay in flight while the rest drains (order %d), %d late Gets per surviving key (SkipRead %v)",
-		cfg, n, stale, survivors, drain, nLate, lateSkip)
+	c.Tracef("config: %s; %d keys (initial state %d), %d builds stay in flight while the rest drains (order %d), %d late Gets per surviving key (SkipRead %v); callers cancelled after return=%v; %d other Gets while builds are in flight",
+		cfg, n, initial, survivors, drain, nLate, lateSkip, cancelCallers, churn)
 
 	if n >= 100 {
 		c.NonTrivial()
@@ -140,11 +153,59 @@ func propManyKeys(c *Case) {
 			}()
 		}
 
+		var cancels []context.CancelFunc
+
 		for i := 0; i < n; i++ {
-			get(i, context.Background(), fmt.Sprintf("g%d", i))
+			ctx, cancel := context.WithCancel(context.Background())
+			cancels = append(cancels, cancel)
+			c.OnClose(0, cancel)
+			get(i, ctx, fmt.Sprintf("g%d", i))
 		}
 
 		synctest.Wait()
+
+		if background {
+			// a Get that is served a stale value depends on no builder invocation: it has returned
+			mu.Lock()
+			p := pending
+			mu.Unlock()
+
+			c.Assert(p == 0, "get-waits-for-unrelated-builds", "%d of %d Gets served from acceptable stale values have not returned while background builds are parked", p, n)
+
+			if cancelCallers {
+				for _, cancel := range cancels {
+					cancel()
+				}
+
+				synctest.Wait()
+				c.Class("callers-cancelled-while-background-builds-run")
+			}
+
+			// let every background build finish (however many may run at a time)
+			for i := range release {
+				open(i)
+			}
+
+			synctest.Wait()
+
+			mu.Lock()
+			defer mu.Unlock()
+
+			missing := 0
+
+			for i := range keys {
+				if builds[string(keys[i])] != 1 {
+					missing++
+				}
+			}
+
+			c.Assert(missing == 0, "background-build-lost", "%d of %d keys were not rebuilt exactly once by their background update (callers cancelled after return: %v)", missing, n, cancelCallers)
+			c.Assert(overlap == "", "overlap", "overlap: %s", overlap)
+			c.Assert(len(results) == 0, "wrong-result", "%d Gets returned something else than a value of their key, e.g. %v", len(results), results)
+			c.Assert(w.fe.KeyLocks() == 0, "key-lock-leaked", "%d key locks remain at quiescence", w.fe.KeyLocks())
+
+			return
+		}
 
 		mu.Lock()
 		locked := 0
@@ -185,6 +246,17 @@ func propManyKeys(c *Case) {
 		}
 
 		c.Tracef("%d key locks remain, %d builds are still in flight", w.fe.KeyLocks(), survivors)
+
+		// a long history of other Gets (each takes and releases a key lock) while those builds run
+		for j := 0; j < churn; j++ {
+			k := []byte(fmt.Sprintf("churn-%06d", j))
+			_, err := w.fe.Get(context.Background(), k, func(context.Context) (string, error) { return tokenFor(k, "churn", j), nil })
+			c.Assert(err == nil, "churn-get", "Get(%s) = %v", k, err)
+		}
+
+		if churn > 0 {
+			c.Class(fmt.Sprintf("churn=%d", churn))
+		}
 
 		for i := range surviving {
 			for l := 0; l < nLate; l++ {
